@@ -97,6 +97,29 @@ class Executor(ExternMixin, ExprMixin, CallMixin, BuiltinMixin, StmtMixin, Engin
             pname = params[0]
             if ent.get('classmethod') or c.get('self_is_class'):
                 env[pname] = SV('cls', cls_for_self)
+            elif 'self_from_init' in c:
+                # the receiver is built by the REAL constructor from symbolic arguments; objects it creates for itself are then set to
+                # an arbitrary state of the same shape (any number of earlier method calls may have changed their primitive fields)
+                spec = c['self_from_init']
+                args = {k_: self.fresh_of(v_, 'init_' + k_) for k_, v_ in spec.items()}
+                before = set(st.heap)
+                o = self.instantiate(cls_for_self, [], args, fn)
+                for oid in sorted(set(st.heap) - before):
+                    h_ = st.heap[oid]
+                    if oid == o.t or not isinstance(h_, HObj):
+                        continue
+                    h_.symbolic_model = True
+                    for fk, fv in list(h_.f.items()):
+                        if fv.k in ('int', 'bool'):
+                            h_.f[fk] = self.havoc_like(fv, fk)
+                        elif fv.k == 'list' and not isinstance(st.heap[fv.t], type(None)):
+                            lst = st.heap[fv.t]
+                            if hasattr(lst, 'items') and all(x.k in ('int', 'bool') for x in lst.items):
+                                lst.items[:] = [self.havoc_like(x, f'{fk}{i}') for i, x in enumerate(lst.items)]
+                st.heap[o.t].symbolic_model = True
+                env[pname] = o
+                for inv in c.get('self_inv', self.models.get(cls_for_self, {}).get('inv', [])):
+                    self.assume(self.truth(self.ev_spec(inv, {'self': o})))
             else:
                 model = {'fields': c.get('self_fields', self.models.get(cls_for_self, {}).get('fields', {})),
                          'inv': c.get('self_inv', self.models.get(cls_for_self, {}).get('inv', []))}
